@@ -14,8 +14,11 @@ import (
 	"crypto"
 	"encoding/json"
 	"fmt"
+	"io"
 	"os"
+	"runtime/debug"
 	"strings"
+	"sync"
 	"time"
 
 	"github.com/notaryproject/notation-go"
@@ -52,6 +55,56 @@ func sameMap(a, b map[string]string) bool {
 		}
 	}
 	return true
+}
+
+// readerOf presents the blob the ways callers do: an in-memory reader (which can stream itself), a plain reader
+// without any fast path, a reader delivering odd-sized short reads, and a pipe fed by another goroutine. The cases run
+// 16 at a time, so streams of different blobs are consumed concurrently.
+type chunked struct {
+	b []byte
+	n int
+}
+
+func (c *chunked) Read(p []byte) (int, error) {
+	if len(c.b) == 0 {
+		return 0, io.EOF
+	}
+	n := c.n
+	if n > len(p) {
+		n = len(p)
+	}
+	if n > len(c.b) {
+		n = len(c.b)
+	}
+	copy(p, c.b[:n])
+	c.b = c.b[n:]
+	return n, nil
+}
+
+func readerOf(k int, content []byte) io.Reader {
+	switch k % 4 {
+	case 0:
+		return bytes.NewReader(content)
+	case 1:
+		return struct{ io.Reader }{bytes.NewReader(content)}
+	case 2:
+		return &chunked{b: content, n: 1021}
+	default:
+		pr, pw := io.Pipe()
+		go func() {
+			for off := 0; off < len(content); off += 4093 {
+				end := off + 4093
+				if end > len(content) {
+					end = len(content)
+				}
+				if _, err := pw.Write(content[off:end]); err != nil {
+					return
+				}
+			}
+			pw.Close()
+		}()
+		return pr
+	}
 }
 
 func main() {
@@ -167,7 +220,7 @@ func main() {
 			}
 		}
 		if c.Blob {
-			sigBytes, _, err := notation.SignBlob(ctx, sgn, bytes.NewReader(content), notation.SignBlobOptions{SignerSignOptions: sopts, ContentMediaType: c.MediaType, UserMetadata: c.Metadata})
+			sigBytes, _, err := notation.SignBlob(ctx, sgn, readerOf(ci, content), notation.SignBlobOptions{SignerSignOptions: sopts, ContentMediaType: c.MediaType, UserMetadata: c.Metadata})
 			if err != nil {
 				r.Violation(sig("sign-failed"), fmt.Sprintf("%s: SignBlob failed: %v", id, err), wit)
 				return
@@ -178,7 +231,7 @@ func main() {
 				{BlobVerifierVerifyOptions: notation.BlobVerifierVerifyOptions{SignatureMediaType: c.Format, UserMetadata: c.Metadata}, ContentMediaType: c.MediaType},
 				{BlobVerifierVerifyOptions: notation.BlobVerifierVerifyOptions{SignatureMediaType: c.Format, TrustPolicyName: "p"}},
 			} {
-				desc, out, err := notation.VerifyBlob(ctx, v, bytes.NewReader(content), sigBytes, vo)
+				desc, out, err := notation.VerifyBlob(ctx, v, readerOf(ci+vi+1, content), sigBytes, vo)
 				if err != nil || out == nil {
 					r.Violation(sig("verify-failed"), fmt.Sprintf("%s: VerifyBlob (variant %d) of the library's own signature failed: %v", id, vi, err), wit)
 					return
@@ -259,11 +312,11 @@ func main() {
 		checkPayload(outs[0], want)
 		r.Sample("oci", id)
 	}, r.PanicViolation("sign/verify round trip"))
+	concurrentStreams(r, signers["EC-256"])
 	r.RequireAtLeast("blob-round-trips", 72)
 	r.RequireAtLeast("oci-round-trips", 36)
 	r.Finish()
 }
-
 
 // richRepo decorates the descriptor a repository resolves with the optional descriptor fields.
 type richRepo struct{ registry.Repository }
@@ -277,4 +330,58 @@ func (r richRepo) Resolve(ctx context.Context, ref string) (ocispec.Descriptor, 
 		d.Platform = &ocispec.Platform{Architecture: "amd64", OS: "linux"}
 	}
 	return d, err
+}
+
+// concurrentStreams: many blob round trips in flight at once, every blob distinct and presented as a stream without a
+// fast path, alternating formats. Each signature must verify against its own blob and name that blob's digest: state
+// shared between calls in flight (a scratch buffer, a hasher) shows as a digest of some other stream's bytes.
+func concurrentStreams(r *lib.Run, ent *lib.Ent) {
+	ctx := context.Background()
+	sv := trustpolicy.SignatureVerification{VerificationLevel: "strict"}
+	ts := lib.NewMemTS().Put("ca:x", ent.Root().Cert)
+	v, err := verifier.NewVerifierWithOptions(ts, verifier.VerifierOptions{BlobTrustPolicy: lib.BlobPolicy(sv, []string{"ca:x"}, []string{"*"}), RevocationCodeSigningValidator: lib.OKRev{}, RevocationTimestampingValidator: lib.OKRev{}})
+	if err != nil {
+		panic(err)
+	}
+	sgn, err := signer.NewGenericSigner(ent.Key, ent.Chain())
+	if err != nil {
+		panic(err)
+	}
+	G, R := 48, r.N(8, 60)
+	var wg sync.WaitGroup
+	for g := 0; g < G; g++ {
+		wg.Add(1)
+		go func(g int) {
+			defer wg.Done()
+			defer func() {
+				if p := recover(); p != nil {
+					r.PanicViolation("concurrent SignBlob/VerifyBlob")(g, p, debug.Stack())
+				}
+			}()
+			for k := 0; k < R; k++ {
+				id := fmt.Sprintf("concurrent|g=%d|k=%d", g, k)
+				content := r.Rand(id).Bytes(64<<10 + (g*R+k)*257%(192<<10))
+				format := lib.Formats[(g+k)%2]
+				want := digest.FromBytes(content)
+				r.Eval(id)
+				sig := map[string]string{"kind": "concurrent-streams", "format": format}
+				sigBytes, _, err := notation.SignBlob(ctx, sgn, readerOf(1+(g+k)%3, content), notation.SignBlobOptions{SignerSignOptions: notation.SignerSignOptions{SignatureMediaType: format}, ContentMediaType: "application/octet-stream"})
+				if err != nil {
+					r.Violation(sig, fmt.Sprintf("%s: SignBlob failed with %d calls in flight: %v", id, G, err), nil)
+					continue
+				}
+				desc, out, err := notation.VerifyBlob(ctx, v, readerOf(1+(g+k+1)%3, content), sigBytes, notation.VerifyBlobOptions{BlobVerifierVerifyOptions: notation.BlobVerifierVerifyOptions{SignatureMediaType: format}})
+				if err != nil || out == nil {
+					r.Violation(sig, fmt.Sprintf("%s: the library's own signature does not verify against its own blob with %d calls in flight: %v", id, G, err), nil)
+					continue
+				}
+				if desc.Digest != want || desc.Size != int64(len(content)) {
+					r.Violation(sig, fmt.Sprintf("%s: VerifyBlob returned {%s %d}, the blob is {%s %d}", id, desc.Digest, desc.Size, want, len(content)), nil)
+				}
+				r.Event("concurrent-blob-round-trips")
+			}
+		}(g)
+	}
+	wg.Wait()
+	r.RequireAtLeast("concurrent-blob-round-trips", int64(G*R/2))
 }
